@@ -11,6 +11,8 @@ import numpy as np
 from .. import cards, rel, yrun
 from ..engine import digest
 
+HISTORY_SWEEP = True
+HISTORY_SWEEP_PER_PROCESS = 5  # each state already consists of several real runs
 ID = "C07"
 SF_KINDS = ["F2", "FL", "F3", "g1", "gL", "g4"]
 PROCS = ["EM", "NC", "CC"]
